@@ -169,6 +169,10 @@ impl ToMysqlValue for i8 {
     mysql_text_trivial!();
     fn to_mysql_bin<W: Write>(&self, w: &mut W, c: &Column) -> io::Result<()> {
         let signed = !c.colflags.contains(ColumnFlags::UNSIGNED_FLAG);
+        if !signed && *self < 0 {
+            // an unsigned column cannot represent a negative number
+            return Err(bad(self, c));
+        }
         match c.coltype {
             ColumnType::MYSQL_TYPE_LONGLONG => {
                 if signed {
@@ -232,6 +236,10 @@ impl ToMysqlValue for i16 {
     mysql_text_trivial!();
     fn to_mysql_bin<W: Write>(&self, w: &mut W, c: &Column) -> io::Result<()> {
         let signed = !c.colflags.contains(ColumnFlags::UNSIGNED_FLAG);
+        if !signed && *self < 0 {
+            // an unsigned column cannot represent a negative number
+            return Err(bad(self, c));
+        }
         match c.coltype {
             ColumnType::MYSQL_TYPE_LONGLONG => {
                 if signed {
@@ -281,6 +289,10 @@ impl ToMysqlValue for i32 {
     mysql_text_trivial!();
     fn to_mysql_bin<W: Write>(&self, w: &mut W, c: &Column) -> io::Result<()> {
         let signed = !c.colflags.contains(ColumnFlags::UNSIGNED_FLAG);
+        if !signed && *self < 0 {
+            // an unsigned column cannot represent a negative number
+            return Err(bad(self, c));
+        }
         match c.coltype {
             ColumnType::MYSQL_TYPE_LONGLONG => {
                 if signed {
